@@ -473,7 +473,7 @@ func parseMermaid(src string) (graph, error) {
 
 // ---- workload -----------------------------------------------------------------
 
-var hostileNames = []string{"has space", "quo\"te", "arrow->x", "lt<gt>", "amp&", "new\nline", "ünï", "semi;colon", "brace}", "[bracket]", "back\\slash", "dash-ed", "1starts-with-digit", "node", "graph"}
+var hostileNames = []string{"has space", "quo\"te", "arrow->x", "lt<gt>", "amp&", "new\nline", "ünï", "semi;colon", "brace}", "[bracket]", "back\\slash", "dash-ed", "1starts-with-digit", "node", "graph", "50%done", "a%%b", "100%", "%s%d%v", "tab\there"}
 
 func rename(a *ref.ASpec, mapping map[string]string) *ref.ASpec {
 	m := func(s string) string {
